@@ -993,6 +993,18 @@ def _cleanup(paths, prefixes):
             sys.modules.pop(k, None)
 
 
+def _observe_read(m, path):
+    """(stem, digest of the file's bytes, sha1 of the module text), module name — None for a model without functions"""
+    import hashlib
+
+    fns = [c.fn for c in list(m.get_raw_reactions().values()) + list(m.get_raw_derived().values())]
+    if not fns:
+        return None
+    mod = fns[0].__module__
+    text = Path(sys.modules[mod].__file__).read_text()
+    return [path.stem, hashlib.sha256(path.read_bytes()).hexdigest()[:DIGEST_LEN[0]], hashlib.sha1(text.encode()).hexdigest()], mod
+
+
 def real_worker(job):
     import warnings
 
@@ -1013,9 +1025,10 @@ def real_worker(job):
             write_doc(case["prev_doc"], path)
             st = path.stat()
             try:
-                sbml.read(path)
+                mprev = sbml.read(path)
+                out_prev = _observe_read(mprev, path)
             except Exception:  # noqa: BLE001
-                pass
+                out_prev = None
             write_doc(case["doc"], path, case.get("raw"))
             if case.get("keep_mtime"):
                 os.utime(path, ns=(st.st_atime_ns, st.st_mtime_ns))
@@ -1034,6 +1047,11 @@ def real_worker(job):
             fns = [c.fn for c in list(m.get_raw_reactions().values()) + list(m.get_raw_derived().values())]
             out["module"] = fns[0].__module__ if fns else None
             out["stem"] = path.stem
+            if case.get("prev_doc") is not None and fns and out_prev is not None:
+                # what the session model speaks about: the two reads of this path (stem, digest, code), the module names
+                now = _observe_read(m, path)
+                if now is not None:
+                    out["session"] = {"reads": [out_prev[0], now[0]], "modules": [out_prev[1], now[1]]}
         except Exception as e:  # noqa: BLE001
             return {"err": "eval:" + type(e).__name__, "msg": str(e)[:200]}
         try:
@@ -1429,6 +1447,20 @@ def lean_docs(ctx, cases):
     return driver.call_batch([{"op": "c17", "doc": c["doc"], "states": c["states"], "watch": c["watch"]} for c in cases])
 
 
+def check_sessions(ctx, cases, Rs):
+    """stratum `rewrite`: the two reads of one path against `readAll` — module names, and the file of the second module
+    holds the second document's code"""
+    todo = [(c, R["session"]) for c, R in zip(cases, Rs) if isinstance(R, dict) and "session" in R]
+    if not todo or not ctx.driver_ok:
+        return
+    Ms = driver.call_batch([{"op": "c17", "session": s_["reads"]} for _, s_ in todo])
+    for (c, s_), ms in zip(todo, Ms):
+        ctx.hist["session checks (rewrite)"] = ctx.hist.get("session checks (rewrite)", 0) + 1
+        if ms["handles"] != s_["modules"] or ms["module_names"] != s_["modules"] or not ms["intact"][1][0]:
+            ctx.add_drift({k: c.get(k) for k in ("kind", "doc", "prev_doc", "states", "watch", "stem", "keep_mtime")},
+                          s_, ms, "two reads of one path: module names / file of the second module differ from readAll")
+
+
 def check_glue(ctx, cases, Rs):
     """mxlpy's own stage on every imported document: `genModule (importSym <pysbml model>)` against the module text"""
     # (stratum `shadow`: the renaming of a parameter that would shadow a name the body calls happens in the text
@@ -1537,6 +1569,7 @@ def run(ctx):
                 key = f"construct {'suite' if case['kind'] == 'suite' else 'generated'}: {k}"
                 ctx.hist[key] = ctx.hist.get(key, 0) + 1
             judge_doc(ctx, case, R, M)
+        check_sessions(ctx, chunk, Rs)
         check_glue(ctx, chunk, Rs)
         if len(ctx.violations) > 20:
             break
